@@ -8,12 +8,14 @@ import subprocess
 import sys
 
 from .. import core, inst, tlc, zoo
-from ..gen import random_heap
+from ..gen import random_heap, _psize
 from ..heap import Slots, World, norm_heap, slot_order
 
 PROFILES = {
     # name: (classes, prop table, default atoms, origins, objs quick, objs thorough, MaxTuple)
-    "struct": (["Leaf", "Unary", "Many", "Opt"], {("Leaf", "a"): {0, 1}}, {0}, {0}, 4, 5, 2),
+    # (thorough may also be a list of (objs, MaxTuple) runs: 5 objects with pairs is ~315k heaps whose
+    #  invariants TLC does not finish in 20 min, so the deep run and the wide run are separate)
+    "struct": (["Leaf", "Unary", "Many", "Opt"], {("Leaf", "a"): {0, 1}}, {0}, {0}, 4, [(5, 1), (4, 3)], 2),
     "props": (["Leaf", "SubLeaf", "Val", "Two", "Unary"],
               {("Leaf", "a"): {0, 1}, ("Leaf", "b"): {0, 1}, ("SubLeaf", "c"): {0, 1}, ("SubLeaf", "note"): {0, 1},
                ("Val", "v"): {0, 1, 2}, ("Val", "w"): {0, 1}, ("Two", "x"): {0, 1}, ("Two", "y"): {0, 1}},
@@ -23,8 +25,9 @@ PROFILES = {
 }
 
 
-def gen_cases(chk: core.Check, profile: str, nobj: int):
-    classes, ptab, dflt, orgs, _, _, mt = PROFILES[profile]
+def gen_cases(chk: core.Check, profile: str, nobj: int, mt: int | None = None):
+    classes, ptab, dflt, orgs, _, _, mt0 = PROFILES[profile]
+    mt = mt0 if mt is None else mt
     mod, cfg = inst.instance(
         "I_Content", "Gen_Content",
         dict(MaxObjs=nobj, MaxTuple=mt, GenClasses=set(classes), Origins=set(orgs), PropAtoms="@op:PA"),
@@ -33,7 +36,7 @@ def gen_cases(chk: core.Check, profile: str, nobj: int):
     (chk.wd / "I_Content.tla").write_text(mod)
     r = tlc.run(chk.wd, "I_Content", cfg, workers=core.NPROC, timeout=3000)
     tlc.require_clean(r, f"Gen_Content/{profile}")
-    chk.note_tlc(f"Gen_Content/{profile}/objs={nobj}", r, "mc+gen")
+    chk.note_tlc(f"Gen_Content/{profile}/objs={nobj}/tuple={mt}", r, "mc+gen")
     if r.violated:
         chk.tlc_violation(f"Gen_Content-{profile}", r)
     return r.json_lines
@@ -214,7 +217,7 @@ def mutate_copy(rng: random.Random, h: dict, root: str, zi) -> tuple[dict, str]:
             fs = [f for f in zi.prop_fields(r["c"]) if f["init"]]
             if fs:
                 f = rng.choice(fs)
-                r["p"][f["n"]] = (r["p"][f["n"]] + 1) % 3
+                r["p"][f["n"]] = (r["p"][f["n"]] + 1) % min(3, _psize(f))
         else:
             fs = [f for f in zi.child_fields(r["c"]) if f["kind"] in ("opt", "tuple")]
             if fs:
@@ -267,9 +270,11 @@ def run(chk: core.Check, pid: str):
     profs = ["struct", "props", "classes"] if pid == "C01" else ["origins", "struct", "classes"]
     for prof in profs:
         nq, nt = PROFILES[prof][4], PROFILES[prof][5]
-        cases = gen_cases(chk, prof, nq if quick else nt)
-        chk.bounds[prof] = {"MaxObjs": nq if quick else nt, "classes": PROFILES[prof][0]}
-        allcases.extend(cases)
+        runs = [(nq, None)] if quick else (nt if isinstance(nt, list) else [(nt, None)])
+        for nobj, mt in runs:
+            allcases.extend(gen_cases(chk, prof, nobj, mt))
+        chk.bounds[prof] = {"runs (MaxObjs, MaxTuple)": [[n, PROFILES[prof][6] if m is None else m] for n, m in runs],
+                            "classes": PROFILES[prof][0]}
     c = allcases[len(allcases) // 2]
     chk.sample({"heap": c["h"], "root": c["root"], "pairs": c["pairs"][:3], "n_variations": len(c["vars"])})
     poolsets = ["plain", "adversarial", "sets"] if quick else ["plain", "adversarial", "adversarial2", "adversarial3", "adversarial4", "sets"]
